@@ -795,3 +795,36 @@ PROPS["C01"]["claim"] += (" Since C01JsonFull.roundtrip_full_json the JSON state
     "holding native values) Marshal to JSON text (any Line/Indent options) then Unmarshal returns normV .json up to map entry order: "
     "-0 comes back as 0, integral floats in untyped slots as integers, uint64 below 2^63 in untyped slots as int. A registered tagged "
     "type inside an untyped slot cannot be reconstructed from JSON (tags are not written): kernel-checked examples show what comes back.")
+
+# C10: the transcoded document DENOTES the same value (not only: is accepted / equals the batch composition)
+PROPS["C10"]["theorems"] += ["Refmt.C10Value.c2j_denotes", "Refmt.C10Value.c2j_denotes_ref", "Refmt.C10Value.c2j_float_leaf", "Refmt.C10Value.j2c_denotes"]
+PROPS["C10"]["extra_modules"] = PROPS["C10"].get("extra_modules", []) + ["RefmtProofs.Props.C10Value"]
+PROPS["C10"]["claim"] += (" Since C10Value: CBOR to JSON: decoding the pump's JSON output yields the source item's tokens up to the re-typing JSON "
+    "implies (lengths unknown, integers by range, every finite float as the same number: C03Sem); JSON to CBOR: decoding the pump's CBOR "
+    "output yields the source tokens up to the spelling of non-negative integers.")
+# C16: faults through the pump (also on the very last Write, when source and sink both report done)
+PROPS["C16"]["theorems"] += ["Refmt.C16Pump.pump_no_fault_same", "Refmt.C16Pump.pump_write_fault_cbor", "Refmt.C16Pump.pump_write_fault_json",
+    "Refmt.C16Pump.pump_write_fault_c2j", "Refmt.C16Pump.pump_write_fault_c2c", "Refmt.C16Pump.pump_write_fault_j2c", "Refmt.C16Pump.pump_write_fault_j2j",
+    "Refmt.C16Pump.pump_fault_on_last_write_c2j", "Refmt.C16Pump.pump_fault_on_last_write_j2c"]
+PROPS["C16"]["extra_modules"] = PROPS["C16"].get("extra_modules", []) + ["RefmtProofs.Props.C16Pump"]
+PROPS["C16"]["claim"] += (" Since C16Pump the same holds through the lock-step pump model (TokenPump.Run over a sink whose writer fails): for "
+    "every well-formed source document, in all four transcoding directions, an effective write fault makes the pump return an error - "
+    "including a fault on the last Write, made while source and sink both report done - and without a fault the faulty-writer pump is "
+    "the plain pump.")
+# C17: a long-lived codec instance = a fresh one, for every history
+PROPS["C17"]["theorems"] += ["Refmt.C17Reuse.reused_eq_fresh_cbor_enc", "Refmt.C17Reuse.reused_eq_fresh_json_enc", "Refmt.C17Reuse.reused_eq_fresh_cbor_dec",
+    "Refmt.C17Reuse.reused_eq_fresh_json_dec", "Refmt.C17Reuse.history_irrelevant_cbor_enc", "Refmt.C17Reuse.history_irrelevant_json_enc",
+    "Refmt.C17Reuse.history_irrelevant_cbor_dec", "Refmt.C17Reuse.history_irrelevant_json_dec", "Refmt.C17Reuse.frame_cbor_reused", "Refmt.C17Reuse.frame_json_reused"]
+PROPS["C17"]["extra_modules"] = PROPS["C17"].get("extra_modules", []) + ["RefmtProofs.Props.C17Reuse"]
+PROPS["C17"]["claim"] += (" Since C17Reuse these are composed into the statement the property makes, for the codec instances: a call on an instance "
+    "in ANY state (after any history of complete, abandoned or failed calls) gives exactly the result of a fresh instance, and a "
+    "reused decoder frames a stream of items like a fresh one per item.")
+# C12: the typed leg (b2 still decodes into v's own type to the specified value)
+PROPS["C12"]["theorems"] += ["Refmt.C12Typed.remarshal_typed_leg_tokens", "Refmt.C12Typed.remarshal_typed_same_as_first_pass",
+                             "Refmt.C12Typed.remarshal_typed_leg_cbor", "Refmt.C12Typed.remarshal_typed_leg_json"]
+PROPS["C12"]["extra_modules"] += ["RefmtProofs.Props.C12Typed"]
+PROPS["C12"]["claim"] += (" Since C12Typed the other half is proved as well, on fullTy for atlases without tagged entries: the untyped pass over "
+    "Marshal(v) succeeds, its re-marshal t2 (struct fields now in key order, non-negative integers re-spelled) is read by the unmarshaller "
+    "of v's own type as exactly what it reads from the first document, i.e. the specified value (token level; CBOR byte level; JSON "
+    "byte level for typed targets without floats). With tagged entries the chain is evaluated on examples and tied by the stream; an atlas "
+    "that registers one tag twice breaks it (kernel-checked example).")
